@@ -72,8 +72,11 @@ def run(ctx):
     import contracts.memory       # noqa: F401
     from pyvc.contract import REGISTRY
     from pyvc import run as prun
-    cs = [c for c in REGISTRY.values() if 'C08' in c.props]
+    import contracts.transform    # noqa: F401
+    cs = [c for c in REGISTRY.values() if 'C08' in c.props and c.__class__.__module__ != 'contracts.transform']
     prun.run_contracts(ctx, cs, 'contracts.simulation')
+    cs = [c for c in REGISTRY.values() if 'C08' in c.props and c.__class__.__module__ == 'contracts.transform']
+    prun.run_contracts(ctx, cs, 'contracts.transform')
     lemmas(ctx)
     # complete (content x operation) space of a 2-word x 2-bit memory, three simulators,
     # plain / synthesized / optimized blocks
